@@ -49,6 +49,35 @@ func jwtFixtures() {
 	})
 }
 
+const otherIssuer = "https://other-tenant.example.com"
+
+var (
+	otherOnce sync.Once
+	otherTok  string
+)
+
+// otherIssuerToken: a token of the other issuer, signed with that issuer's key (published under the key id k1 as well)
+func otherIssuerToken() string {
+	otherOnce.Do(func() {
+		key := vkit.LoadKey("ecp256b").(*ecdsa.PrivateKey)
+		otherTok, _ = vkit.MintJWT(map[string]any{"alg": "ES256", "kid": "k1"}, map[string]any{"iss": otherIssuer, "sub": "u1", "aud": []any{"api"},
+			"exp": time.Now().Unix() + 36000}, key)
+	})
+
+	return otherTok
+}
+
+// jwksOfTenant: the key set of the issuer named in the X-Tenant header
+func jwksOfTenant(tenant string) []byte {
+	jwtFixtures()
+
+	if tenant == otherIssuer {
+		return vkit.JWKSJSON([]vkit.JWK{{Kid: "k1", Alg: "ES256", Use: "sig", Pub: &vkit.LoadKey("ecp256b").(*ecdsa.PrivateKey).PublicKey}})
+	}
+
+	return vkit.JWKSJSON([]vkit.JWK{{Kid: "k1", Alg: "ES256", Use: "sig", Pub: &jwtKey.PublicKey}})
+}
+
 func jwksWithCertificate() []byte {
 	jwtFixtures()
 
@@ -82,7 +111,7 @@ func genJWTAuthenticatorCase(t *rapid.T) caseSpec {
 	refA, refB := config.MechanismConfig{"authenticator": "jwtA"}, config.MechanismConfig{"authenticator": "jwtA"}
 	tokA, tokB := jwtTokens["u1"], jwtTokens["u1"]
 
-	c.Kind = rapid.SampledFrom([]string{"equal", "credential", "other-trust-store", "other-trust-store", "assertions-audience"}).Draw(t, "pairKind")
+	c.Kind = rapid.SampledFrom([]string{"equal", "credential", "other-trust-store", "other-trust-store", "assertions-audience", "issuer-in-endpoint-header"}).Draw(t, "pairKind")
 
 	switch c.Kind {
 	case "equal":
@@ -93,6 +122,17 @@ func genJWTAuthenticatorCase(t *rapid.T) caseSpec {
 	case "other-trust-store":
 		refB = config.MechanismConfig{"authenticator": "jwtB"}
 		c.Kind, c.Detail = "cross-variant", "rule B uses an authenticator whose trust store does not contain the issuer of the key's certificate (policy A: "+policyA+")"
+	case "issuer-in-endpoint-header":
+		// one authenticator for two issuers which publish their keys at the same url, told apart by a header the endpoint
+		// configuration renders from the issuer of the token; both use the key id k1
+		tenants := config.Mechanism{ID: "jwtT", Type: "jwt", Config: config.MechanismConfig{
+			"jwks_endpoint": map[string]any{"url": remote.URL() + "/jwks", "headers": map[string]any{"X-Tenant": "{{ .TokenIssuer }}"}},
+			"assertions":    map[string]any{"issuers": []any{issuer, otherIssuer}}, "cache_ttl": "5m", "validate_jwk": false,
+		}}
+		c.Authn = append(c.Authn, tenants)
+		refA, refB = config.MechanismConfig{"authenticator": "jwtT"}, config.MechanismConfig{"authenticator": "jwtT"}
+		tokB = otherIssuerToken()
+		c.Kind, c.Detail = "one-component", "issuer of the token, which the key set endpoint is told in a header (same url, same key id, another key)"
 	case "assertions-audience":
 		refB["config"] = map[string]any{"assertions": map[string]any{"audience": []any{"other-api"}}}
 		c.Kind, c.Detail = "cross-variant", "rule B expects an audience the token lacks"
